@@ -91,7 +91,8 @@ def gen_scenario(seed, profile="mixed"):
         else:
             steps.append(["start_writer", p.split(":")[1]])
     steps.append(["free", None])
-    steps.append(["sleep", 60])
+    steps.append(["join", 15000])      # every writer has made all its appends: the last poll comes after quiescence
+    steps.append(["sleep", 20])
     steps.append(["poll", "p1", None])
     return {"name": "sched-%s-%d" % (profile, seed), "history": history, "writers": writers,
             "readers": {"r1": reader}, "steps": steps, "settle_ms": 150 if follow != 15 else 250,
@@ -125,7 +126,7 @@ def stress_scenario(seed, writers=8, per=120):
     steps = [["free", None], ["start_reader", "r1"]] + [["start_writer", w] for w in ws]
     for _ in range(60):
         steps += [["poll", "p1", None], ["sleep", 3]]
-    steps += [["sleep", 400], ["poll", "p1", None]]
+    steps += [["join", 30000], ["sleep", 50], ["poll", "p1", None]]
     return {"name": "stress-%d" % seed, "history": [], "writers": ws,
             "readers": {"r1": {"follow": "on", "tail": False, "last": None, "limit": None, "ctx": None, "consume": "eager"}},
             "steps": steps, "settle_ms": 400, "step_timeout_ms": 5000, "drain_max_ms": 15000, "free_run": True}
